@@ -875,3 +875,26 @@ func (w *World) absorb(st *Step) {
 		m.Apps[st.Op.A] = "unanswered"
 	}
 }
+
+// ---------------------------------------------------------------- raw message builders (recovery replay, malformed catalogue)
+
+func (w *World) RawAsk(a *AskSpec, res Res, node string) *si.Allocation { return w.askToSI(a, res, node) }
+
+func (w *World) RawApp(a *AppSpec, force bool) *si.AddApplicationRequest {
+	c := *a
+	c.Forced = c.Forced || force
+	return w.appToSI(&c)
+}
+
+func (w *World) RawNode(id string, action si.NodeInfo_ActionFromRM, cap Res) *si.NodeInfo {
+	return w.nodeInfo(id, action, cap)
+}
+
+func (w *World) RawForeign(fs *ForeignSpec, res Res) *si.Allocation {
+	typ := siCommon.AllocTypeDefault
+	if fs.Static {
+		typ = siCommon.AllocTypeStatic
+	}
+	return &si.Allocation{AllocationKey: fs.Key, PartitionName: PartitionName, NodeID: fs.Node, ResourcePerAlloc: res.ToProto(),
+		AllocationTags: map[string]string{siCommon.Foreign: typ, siCommon.CreationTime: "1000"}}
+}
